@@ -50,6 +50,10 @@ def make_service(state):
 
         def exposed_mutate(self, x, tok):
             x.append(tok)
+
+        def exposed_make_fresh(self, tag):
+            # one object per tag, of a user class (its proxy class has to be asked for: a nested exchange)
+            return state.setdefault("fresh", {}).setdefault(tag, gen.Obj(("B-fresh", tag)))
     return Svc
 
 
@@ -135,6 +139,7 @@ def identity_history(ctx, rng, idx):
         mine[1] = []
     pair = vnet.ServedPair(rpyc.VoidService(), make_service(state)(), cfg_a={"allow_public_attrs": True},
                            cfg_b={"allow_public_attrs": True})
+    fresh = []
     held = {}      # A-side slots -> proxy of B-owned object k
     held_k = {}
     ops = []
@@ -143,7 +148,7 @@ def identity_history(ctx, rng, idx):
         root = pair.a.root
         for step in range(rng.randrange(4, 21)):
             op = rng.choice(["send", "send_tuple", "echo", "give", "drop_remote", "make", "make_pair", "drop_local", "mutate",
-                             "bounce"])
+                             "bounce", "send_twice_in_flight", "receive_twice_in_flight"])
             k = rng.randrange(3)
             slot = rng.randrange(4)
             ops.append((op, k, slot))
@@ -159,10 +164,10 @@ def identity_history(ctx, rng, idx):
                 r = root.give(slot)
                 src = state["slots"][slot]
                 if type(src) is tuple:
-                    if not (type(r) is tuple and r[0] is r[2] and any(r[0] is m for m in mine)):
+                    if not (type(r) is tuple and r[0] is r[2] and any(r[0] is m for m in mine + fresh)):
                         bad.append(("give-not-original", "held tuple came back as %r" % (r,)))
                 elif is_netref(src):
-                    if not any(r is m for m in mine):
+                    if not any(r is m for m in mine + fresh):
                         bad.append(("give-not-original", "held reference came back as %r, not the owner's object" % (r,)))
                 else:       # the slot holds one of the peer's own objects (after a bounce)
                     kk = [i for i, o in enumerate(state["owned"]) if o is src][0]
@@ -188,6 +193,24 @@ def identity_history(ctx, rng, idx):
                     if kk == k and held[s2] is not t[0]:
                         bad.append(("second-proxy", "same remote object received again while a proxy is alive is a different proxy"))
                 del t
+            elif op == "send_twice_in_flight":
+                # the same object in two requests that are both on their way before either is answered; a fresh instance of a
+                # user class, so that the receiver has to ask for its class while the second request is already waiting
+                obj = gen.Obj(("A-fresh", idx, step))
+                fresh.append(obj)
+                ahold = rpyc.async_(root.hold)
+                r1, r2 = ahold(slot, obj), ahold((slot + 1) % 4, obj)
+                r1.wait(), r2.wait()
+                del r1, r2, ahold, obj
+                ctx.count("same_object_in_two_requests_in_flight")
+            elif op == "receive_twice_in_flight":
+                amake = rpyc.async_(root.make_fresh)
+                r1, r2 = amake((idx, step)), amake((idx, step))
+                p1, p2 = r1.value, r2.value
+                if not is_netref(p1) or p1 is not p2:
+                    bad.append(("second-proxy", "the same remote object arriving in two replies that were both in flight gives two proxies"))
+                del r1, r2, p1, p2, amake
+                ctx.count("same_object_in_two_replies_in_flight")
             elif op == "drop_local":
                 held.pop(slot, None)
                 held_k.pop(slot, None)
